@@ -431,3 +431,200 @@ def swapped_arguments_rule(ctx, rule_id, scope_pred, floor=None):
     ctx.instance(f'{rule_id.split(".")[-1]}/swapped', {'rule': rule_id, 'calls_with_named_parameters_checked': checked})
     if floor is not None:
         ctx.floor(f'{rule_id} calls checked for swapped arguments', checked, floor)
+
+
+# --------------------------------------------------------------------------------------------- statement clauses on the result path
+def stmt_atoms(prog, f, block, sym, depth=0):
+    """what the branch conditions on the way to `block` establish about the SELECT statement `stmt`:
+    '<field>_none' / '<field>_some' for its Option fields (where_clause, limit, offset, set_operation, ..), 'not_distinct';
+    bool helpers that returned true and Option helpers that returned Some are replaced by what holds on all their true / Some paths"""
+    out = set()
+    for c, v in deciding_conditions(f, block, sym):
+        none = (c.startswith('is_some(') and v == '0') or (c.startswith('is_none(') and v != '0') or (c.startswith('discr(') and v in ('0', 'else:1'))
+        some = (c.startswith('is_some(') and v != '0') or (c.startswith('is_none(') and v == '0') or (c.startswith('discr(') and v in ('1', 'else:0'))
+        m = re.match(r'^(?:is_some|is_none|discr)\((?:as_ref\()?\(?\*?(?:stmt|select_stmt|self\.stmt)\)?\.(\w+)\)?\)$', c)
+        if m and (none or some):
+            out.add(m.group(1) + ('_none' if none else '_some'))
+        elif re.search(r'\bstmt\.distinct$', c):
+            if v == '0':
+                out.add('not_distinct')
+        elif v != '0' and depth < 2:
+            m = re.match(r'^(\w+)\(', c)
+            if m:
+                for h in prog.fns.values():
+                    if h.unit == f.unit and h.nice.endswith('::' + m.group(1)) and h.locals and h.locals[0] == 'bool' and not is_test(h) \
+                            and '::select::' in h.nice and not h.is_closure():
+                        out |= _helper_atoms(prog, h, depth + 1)
+            m = re.match(r'^discr\((\w+)\(', c)
+            if m and v in ('1', 'else:0'):
+                for h in prog.fns.values():
+                    if h.unit == f.unit and h.nice.endswith('::' + m.group(1)) and h.locals and 'option::Option<' in h.locals[0] and not is_test(h) \
+                            and '::select::' in h.nice and not h.is_closure():
+                        out |= _helper_atoms(prog, h, depth + 1, some=True)
+    return out
+
+
+def _helper_atoms(prog, h, depth, some=False):
+    """atoms established on every path on which the helper returns true (bool helper) / Some(..) (Option helper)"""
+    from ..engine.cfg import op_const
+    s = Sym(h)
+    sets = []
+    for bi, b in enumerate(h.blocks):
+        for st in b['s']:
+            if 'd' in st and st['d'][0] == 0 and not st['d'][1]:
+                v = st['v']
+                if some:
+                    if v['r'] == 'agg' and v.get('variant') == 'Some':
+                        sets.append(stmt_atoms(prog, h, bi, s, depth))
+                    elif v['r'] == 'agg' and v.get('variant') == 'None':
+                        pass
+                    else:
+                        return set()
+                    continue
+                c = op_const(v['a']) if 'a' in v else None
+                if c in (True, 1, 'true'):
+                    sets.append(stmt_atoms(prog, h, bi, s, depth))
+                elif c in (False, 0, 'false'):
+                    pass
+                else:
+                    return set()
+    return set.intersection(*sets) if sets else set()
+
+
+WRAPPERS = re.compile(r'(Try>::branch|From<.*>::from|Into<.*>::into|Result::<T, E>::map_err|Option::<T>::(ok_or|ok_or_else))$')
+
+
+def flows_to_return(f, call_block):
+    """the value returned by the call in call_block is the value this function returns: its destination reaches _0 through moves, field
+    projections, Ok(..)/Some(..) wrapping and the `?` plumbing only - not through another call (a later phase of the pipeline)"""
+    from ..engine.cfg import op_place
+    t = f.blocks[call_block]['t']
+    if t['d'][0] == 0:
+        return True
+    tainted = {t['d'][0]}
+    changed = True
+    while changed:
+        changed = False
+        for b in f.blocks:
+            for st in b['s']:
+                if 'd' not in st:
+                    continue
+                v = st['v']
+                srcs = []
+                if 'a' in v:
+                    srcs.append(op_place(v['a']))
+                srcs += [op_place(o) for o in v.get('ops', [])]
+                if 'p' in v:
+                    srcs.append(v['p'])
+                if any(p and p[0] in tainted for p in srcs) and st['d'][0] not in tainted and v['r'] in ('use', 'agg', 'ref', 'cast'):
+                    tainted.add(st['d'][0]); changed = True
+            tt = b['t']
+            if tt['k'] == 'call' and WRAPPERS.search(callee_name(tt) or ''):
+                if any((op_place(a) or [None])[0] in tainted for a in tt['args']) and tt['d'][0] not in tainted:
+                    tainted.add(tt['d'][0]); changed = True
+    return 0 in tainted
+
+
+def result_path_rule(ctx, prog, rule_id, clauses, describe, floor=6):
+    """From execute_with_ctes downwards (every select-executor callee that receives the same `stmt` and whose rows are the rows its caller
+    returns): for each clause, no successful return is reachable without passing a block that satisfies the clause.
+    clauses: {name: fn(f, sym, g, atoms_of_block) -> set of satisfying blocks}; describe(name, fn, lines) -> finding text.
+    Returns of an empty vector and declining returns (Ok(None)) are exempt."""
+    from ..engine.paths import ok_exit_reachable
+    tops = [f for f in prog.fns.values() if f.unit == 'vibesql_executor' and not f.is_closure() and f.nice.endswith('::execute_with_ctes') and not is_test(f)]
+    ctx.require(len(tops) == 1, 'execute_with_ctes not found')
+    verdict, report, witness, through = {}, {}, {}, {}
+    short_id = rule_id.split('.')[-1]
+
+    def stmt_param(f):
+        return any(f.names.get(k) == 'stmt' for k in range(1, f.argc + 1))
+
+    def candidates(f, s):
+        out = []
+        for i, t in f.calls():
+            cn = callee_name(t) or ''
+            hs = [h for h in prog.by_nice.get(cn, []) if h.unit == 'vibesql_executor' and '::select::' in h.nice and h.locals
+                  and 'result::Result<' in h.locals[0] and 'Vec<vibesql_storage::row::Row>' in h.locals[0].replace('alloc::vec::', '') and stmt_param(h)]
+            if len(hs) == 1 and any(s.op(a) == 'stmt' for a in t['args']) and flows_to_return(f, i):
+                out.append((i, hs[0]))
+        return out
+
+    def complete(f, depth=0):
+        if f.nice in verdict:
+            return verdict[f.nice]
+        verdict[f.nice] = True           # recursion: assume
+        s = Sym(f)
+        g = cfg(f)
+        cand = candidates(f, s) if depth < 6 else []
+        safe_calls = {i for i, h in cand if complete(h, depth + 1)}
+        # a callee that may decline (Ok(None)) does not end the caller's obligation: only the return of its Some(..) rows is satisfied
+        declining = {i: h for i, h in cand if 'option::Option<' in h.locals[0]}
+        safe_returns = set()
+        for i, h in declining.items():
+            if i in safe_calls:
+                nm = h.nice.rsplit('::', 1)[1] + '('
+                for b in g.reachable():
+                    for st in f.blocks[b]['s']:
+                        if 'd' in st and st['d'][0] == 0 and not st['d'][1] and st['v']['r'] == 'agg' and st['v'].get('ops') and nm in s.op(st['v']['ops'][0]):
+                            safe_returns.add(b)
+        safe_calls = {i for i in safe_calls if i not in declining}
+        atoms = {b: stmt_atoms(prog, f, b, s) for b in g.reachable()}
+        exempt = set()
+        for b in g.reachable():
+            for st in f.blocks[b]['s']:
+                if 'd' in st and st['d'][0] == 0 and not st['d'][1] and st['v']['r'] == 'agg' and st['v'].get('variant') == 'Ok' and st['v'].get('ops'):
+                    if re.match(r'^(new\(\)|None\(\)|None\(\)@Some\.0)$', s.op(st['v']['ops'][0])):   # empty / declining / payload of a constant None (dead)
+                        exempt.add(b)
+        res = {}
+        for cl, sat in clauses.items():
+            removed = set(safe_calls) | safe_returns | exempt | set(sat(f, s, g, atoms))
+            res[cl] = ok_exit_reachable(f, [0], removed, loop_model=False)
+        ok = not any(res.values())
+        verdict[f.nice] = ok
+        # paths that are this function's own: they pass none of the callees whose rows are returned
+        own = {}
+        if not ok:
+            for cl, sat in clauses.items():
+                removed = {i for i, _h in cand if i not in declining} | safe_returns | exempt | set(sat(f, s, g, atoms))
+                own[cl] = ok_exit_reachable(f, [0], removed, loop_model=False)
+            if not any(own.values()) and not thr_pending(cand):
+                own = res                 # nothing else to blame
+        # callees through whose call an unsatisfied path of this function runs
+        thr = set()
+        if not ok:
+            for cl, sat in clauses.items():
+                removed = set(safe_calls) | safe_returns | exempt | set(sat(f, s, g, atoms))
+                reached, _ = search(f, [0], removed, loop_model=False)
+                for i, _h in cand:
+                    if i in reached and i not in removed and ok_exit_reachable(f, [i], removed, loop_model=False):
+                        thr.add(i)
+        through[f.nice] = thr
+        witness[f.nice] = (own, dict(cand), safe_calls)
+        report[f.nice] = {'complete': ok, 'callees_with_the_same_stmt': sorted(h.nice.rsplit('::', 1)[1] for _i, h in cand)}
+        return ok
+
+    def thr_pending(cand):
+        return any(not verdict.get(h.nice, True) for _i, h in cand)
+
+    def blame(f, seen):
+        """report the functions in which an unsatisfied path ends: every incomplete callee whose rows are returned is examined, and the function
+        itself when a path remains that passes none of those callees"""
+        if f.nice in seen or verdict.get(f.nice, True):
+            return
+        seen.add(f.nice)
+        own, cand, safe_calls = witness[f.nice]
+        for b, h in cand.items():
+            if not verdict.get(h.nice, True) and b in through[f.nice]:
+                blame(h, seen)
+        for cl, path in own.items():
+            if path:
+                lines = sorted({f.blocks[b]['t']['l'] for b in path})
+                short = re.sub(r"<impl [^>]*>::", '', f.nice).rsplit('::', 1)[-1]
+                ctx.finding(f'{short_id}/{short}', describe(cl, f, lines[:8]), f.loc)
+                break
+
+    complete(tops[0])
+    blame(tops[0], set())
+    for k, v in report.items():
+        ctx.instance(f'{short_id}/' + re.sub(r"<impl [^>]*>::", '', k).rsplit('::', 1)[-1], dict(rule=rule_id, fn=k, **v))
+    ctx.floor(f'{rule_id} functions on the result path', len(report), floor)
